@@ -125,6 +125,18 @@ def run(case):
         cube = build(case)
         shape = tuple(cube.data.shape)
         nd = len(shape)
+        if case["ecs"] and case["wseed"] % 3 == 0 and getattr(cube.extra_coords, "_lookup_tables", None):
+            # a request the extra coords refuse (a mapping / a wcs set by hand on table-built extra coords): AttributeError,
+            # and the cube is described afterwards exactly as before
+            for attr, val in (("mapping", (0,) * max(1, len(case["ecs"]))), ("wcs", cube.wcs)):
+                try:
+                    setattr(cube.extra_coords, attr, val)
+                    fails.append(f"extra_coords.{attr} set by hand on table-built extra coords was accepted")
+                except AttributeError:
+                    pass
+                except Exception as e:
+                    fails.append(f"extra_coords.{attr} = ... raised {type(e).__name__}, documented: AttributeError")
+            tags.append("after-refused-requests")
         pll = cube.wcs.low_level_wcs
         ecw = cube.extra_coords.wcs
         ell = None if ecw is None else (ecw.low_level_wcs if hasattr(ecw, "low_level_wcs") else ecw)
